@@ -75,6 +75,8 @@ type PrintState struct {
 	prev                 Node
 	last                 string
 	rightOperand         bool // the expression being printed is the right operand of an infix expression
+	stmtStart            bool // the next string printed starts a statement that follows another one
+	wantSpace            bool // compact mode: a blank goes between the previous statement and this one
 }
 
 func DebugString(n Node) string {
@@ -113,6 +115,10 @@ func (ps *PrintState) Print(str ...string) *PrintState {
 		ps.IndentationDone = true
 	}
 	for _, s := range str {
+		if ps.stmtStart && s != "" {
+			ps.stmtStart = false
+			_, _ = ps.Out.Write([]byte(ps.separator(s[0])))
+		}
 		if ps.Compact && glued(ps.last, s) {
 			_, _ = ps.Out.Write([]byte{' '}) // a - -b must not become a--b (nor a + +b a++b).
 		}
@@ -129,6 +135,29 @@ func glued(last, next string) bool {
 	}
 	c := next[0]
 	return (c == '-' || c == '+') && last[len(last)-1] == c
+}
+
+func isWordChar(c byte) bool {
+	return c == '_' || c == '.' || ('0' <= c && c <= '9') || ('a' <= c && c <= 'z') || ('A' <= c && c <= 'Z')
+}
+
+// separator returns what must be written between the previous statement and one whose text starts with c so that
+// the parser reads two statements again in compact mode: blanks do not end a statement, so a statement starting
+// with a sign needs a `;` (a; -b would be a - b, a; ++b would be a++ b); a blank keeps words apart (a; b must not
+// become ab) and keeps ( and [ from being read as a call or an index on the previous statement.
+// (In normal mode the same `;` would be needed before a sign; the newline alone is what the test-suite expects.)
+func (ps *PrintState) separator(c byte) string {
+	switch {
+	case !ps.Compact:
+		return ""
+	case c == '-' || c == '+' || c == '^':
+		return ";"
+	case ps.wantSpace || c == '(' || c == '[':
+		return " "
+	case ps.last != "" && isWordChar(ps.last[len(ps.last)-1]) && isWordChar(c):
+		return " "
+	}
+	return ""
 }
 
 // --- AST nodes
@@ -214,11 +243,7 @@ func prettyPrintCompact(ps *PrintState, s Node, i int) bool {
 	}
 	_, prevIsExpr := ps.prev.(*InfixExpression)
 	_, curIsArray := s.(*ArrayLiteral)
-	if curIsArray || (prevIsExpr && ps.last != "}" && ps.last != "]") {
-		if i > 0 {
-			_, _ = ps.Out.Write([]byte{' '})
-		}
-	}
+	ps.wantSpace = curIsArray || (prevIsExpr && ps.last != "}" && ps.last != "]")
 	return false
 }
 
@@ -252,7 +277,9 @@ func (p Statements) PrettyPrint(ps *PrintState) *PrintState {
 		} else {
 			prettyPrintLongForm(ps, s, i)
 		}
+		ps.stmtStart = i > 0
 		s.PrettyPrint(ps)
+		ps.stmtStart = false
 		ps.prev = s
 		i++
 	}
@@ -370,14 +397,15 @@ func (i InfixExpression) PrettyPrint(out *PrintState) *PrintState {
 		out.Print("(")
 	}
 	i.Left.PrettyPrint(out)
-	if out.Compact {
+	switch {
+	case out.Compact:
 		out.Print(i.Literal())
-	} else {
+	case i.Right == nil:
+		out.Print(" ", i.Literal())
+	default:
 		out.Print(" ", i.Literal(), " ")
 	}
-	if i.Right == nil {
-		out.Print("nil")
-	} else {
+	if i.Right != nil { // the open slice a[1:] has no right operand and is written as it is read
 		// (the same associative operator is regrouped to the left without parentheses: 1 + (2 + 3) prints 1 + 2 + 3)
 		r, isInfix := i.Right.(*InfixExpression)
 		out.rightOperand = isInfix && !(r.Type() == i.Type() && associative[i.Type()])
